@@ -159,6 +159,7 @@ type Config struct {
 	MaxSteps      int           // step budget
 	Horizon       time.Duration // simulated time budget
 	KeepLog       bool          // keep the full event log (replay / debugging)
+	MaxStall      time.Duration // longest stall injected (0 = no cap)
 	DrainSteps    int           // extra steps granted after main returned, to let tasks exit
 	DrainTime     time.Duration // extra simulated time granted after main returned
 }
@@ -466,7 +467,7 @@ func Close[T any](site string, c chan<- T) {
 }
 
 func ZeroOf[T any](c <-chan T) (v T, ok bool) { return }
-func ZeroSend[T any](c chan<- T) (v T)          { return }
+func ZeroSend[T any](c chan<- T) (v T)        { return }
 
 // ---------------------------------------------------------------------------
 // locks
@@ -597,19 +598,11 @@ func OnceDo(site string, o *sync.Once, f func()) {
 // ---------------------------------------------------------------------------
 // atomics (pre-yield, then the operation)
 
-type aLoader[T any] interface{ Load() T }
-type aStorer[T any] interface{ Store(T) }
-type aAdder[T any] interface{ Add(T) T }
-type aSwapper[T any] interface{ Swap(T) T }
-type aCASer[T any] interface{ CompareAndSwap(old, new T) bool }
-
-func ALoad[T any](site string, a aLoader[T]) T       { Yield(site); return a.Load() }
-func AStore[T any](site string, a aStorer[T], v T)   { Yield(site); a.Store(v) }
-func AAdd[T any](site string, a aAdder[T], v T) T    { Yield(site); return a.Add(v) }
-func ASwap[T any](site string, a aSwapper[T], v T) T { Yield(site); return a.Swap(v) }
-func ACAS[T any](site string, a aCASer[T], o, n T) bool {
+// Pre yields and returns its argument: x.M(args) on an atomic becomes
+// Pre(site, &x).M(args).
+func Pre[P any](site string, p P) P {
 	Yield(site)
-	return a.CompareAndSwap(o, n)
+	return p
 }
 
 // ---------------------------------------------------------------------------
@@ -907,6 +900,9 @@ var stallDurations = []time.Duration{
 	5 * time.Second, 30 * time.Second, 150 * time.Second, 10 * time.Minute,
 }
 
+// index into stallDurations, short stalls are more likely
+var stallWeights = []int{0, 0, 0, 1, 1, 1, 2, 2, 2, 3, 3, 4, 4, 5, 6, 7}
+
 // Run drives the simulation until main returns, a violation is recorded, or
 // the step / time budget is exhausted. It must be called from the root
 // goroutine of a synctest bubble.
@@ -1009,9 +1005,12 @@ func (s *Sim) Run(main func()) {
 			return cand[a].ID < cand[b].ID
 		})
 		// stall fault: deschedule one candidate for a simulated duration
-		if s.Cfg.StallPermille > 0 && s.Tape.Choose("stall?", 1000) < s.Cfg.StallPermille {
+		if s.Cfg.StallPermille > 0 && s.Tape.Choose("stall?", 1000) >= 1000-s.Cfg.StallPermille {
 			k := s.Tape.Choose("stall.who", len(cand))
-			d := stallDurations[s.Tape.Choose("stall.dur", len(stallDurations))]
+			d := stallDurations[stallWeights[s.Tape.Choose("stall.dur", len(stallWeights))]]
+			if s.Cfg.MaxStall > 0 && d > s.Cfg.MaxStall {
+				d = s.Cfg.MaxStall
+			}
 			cand[k].stallUntil = now.Add(d)
 			s.Stalls++
 			s.Faults["F12.stall"]++
